@@ -92,7 +92,7 @@ def parse_smtlib(text: str):  # noqa: C901
             token = [char]
             while True:
                 if pos >= size:
-                    return
+                    break
                 char = text[pos]
                 pos += 1
                 if char in (' ', '\t', '\n', '\r'):
